@@ -616,6 +616,81 @@ def _fuzz_jobs(ctx, kinds_all):
                               ["burst", rng.randrange(20, ln), 8, rng.randrange(1 << 30)], ["zero", rng.randrange(10, ln), 16]])
             add(rng.choice(["cli", "cli", "readfile"]), "archive", {"seed": tar0, "muts": [["compress", comp], dmg]}, ext=ext,
                 cli_mode="text")
+    # ---- structures that point to themselves, per container format: 7z encoded header that decodes to itself / two
+    #      that decode to each other, PDF objects (ObjStm, /Length, form XObject) referring to themselves, OLE2 FAT / mini-FAT /
+    #      directory cycles, ZIP records whose offsets point at themselves (cdself / eocdself are among ZIP_HDR_HOWS)
+    for nm_ in sorted(M.SELFREF):
+        k_, e_ = M.SELFREF_KIND[nm_], M.SELFREF_EXT[nm_]
+        src_ = {"seed": txt, "muts": [["selfref", nm_]]}
+        add("direct", k_, src_, ext=e_, foreign=True)
+        add("readfile", k_, src_, ext=e_, foreign=True)
+        add("cli", k_, src_, ext=e_, foreign=True, cli_mode="text")
+        if T:
+            add("attachment", k_, src_, ext=e_, foreign=True, members=1)
+    for k, sid in [("doc", M.SEEDS["doc"][0]), ("xls", "fix:legacy_ms/mwe.xls"), ("ppt", "fix:legacy_ms/slide_with_notes.ppt")] + \
+                  ([("msg", "fix:mails/basic_email.msg"), ("xls", "fix:legacy_ms/xls_with_images.xls")] if T else []):
+        for how in M.OLE_CYCLES:
+            for rs_ in ((1, 2, 3, 4) if T else (1, 2)):
+                add("direct", k, {"seed": sid, "muts": [["olecycle", how, rs_]]})
+    for k in (ZIP_KINDS + ["archive"] if T else ["docx", "archive"]):
+        sid = M.SEEDS[k][0]
+        for how in ("cdself", "eocdself"):
+            for rs_ in ((1, 2, 3) if T else (1,)):
+                add("direct", k, {"seed": sid, "muts": [["ziphdr", how, rs_]]})
+    # ---- read_file's own parameters as outcome classes: the size guard (below / at / above the limit, disabled) and the
+    #      routing error run BEFORE the wrapping try and must produce family members themselves
+    for k in (kinds_all if T else ["docx", "pdf", "plain", "xls", "archive"]):
+        sid = M.SEEDS[k][0]
+        n0 = len(M.seed_bytes(sid))
+        if n0 > 500_000 and not T:
+            continue
+        for lim in (1, max(1, n0 - 1), n0, n0 + 1, 0):
+            add("readfile", k, {"seed": sid}, max_file_size=lim)
+        add("readfile", k, {"seed": sid, "muts": [["trunc", n0 // 2]]}, max_file_size=16)
+    for ext_ in ("xyz", "bin", "", "docx.bak"):
+        add("readfile", "plain", {"seed": txt}, ext=ext_, foreign=True)
+    # ---- HISTORIES: a failing call on one thread, then a healthy call of the same (and of another) kind on a fresh
+    #      thread of the same process -- what the first leaves behind (locks, patches, caches) must not block the second
+    healthy = {k: {"kind": k, "entry": "direct", "src": {"seed": M.SEEDS[k][0]}, "ext": _ext_for(k, M.SEEDS[k][0])}
+               for k in kinds_all}
+    for k in kinds_all:
+        sid = M.SEEDS[k][0]
+        n0 = len(M.seed_bytes(sid))
+        if n0 > 500_000 and not T:
+            continue
+        fails = [[["trunc", n0 // 2]], [["flip", rng.randrange(min(n0, 512)), rng.randrange(8)], ["trunc", max(1, n0 * 3 // 4)]]]
+        if T:
+            fails += [[["burst", rng.randrange(n0), 64, rng.randrange(1 << 30)]], [["trunc", max(1, n0 // 10)]]]
+        for f_ in fails:
+            first = {"kind": k, "entry": "direct", "src": {"seed": sid, "muts": f_}, "ext": _ext_for(k, sid)}
+            jobs.append({"op": "seq", "entry": "direct", "kind": k, "src": first["src"], "approx_size": n0,
+                         "steps": [first, healthy[k], healthy["pdf" if k != "pdf" else "docx"]]})
+    for nm_ in sorted(M.SELFREF):                       # every hand-built failing PDF / 7z first, then healthy documents
+        k_ = M.SELFREF_KIND[nm_]
+        first = {"kind": k_, "entry": "direct", "src": {"seed": txt, "muts": [["selfref", nm_]]}, "ext": M.SELFREF_EXT[nm_]}
+        jobs.append({"op": "seq", "entry": "direct", "kind": k_, "src": first["src"], "approx_size": 500,
+                     "steps": [first, healthy["pdf"], healthy["docx"] if k_ == "pdf" else healthy["archive"]]})
+    for sid in ([M.PROTECTED["pdf"]] + (["fix:pdf/wirecard-annual-report-2018-page190.pdf"] if T else [])):
+        first = {"kind": "pdf", "entry": "direct", "src": {"seed": sid}, "ext": "pdf"}
+        jobs.append({"op": "seq", "entry": "direct", "kind": "pdf", "src": first["src"], "approx_size": 60000,
+                     "steps": [first, healthy["pdf"], first, healthy["pdf"]]})
+    # ---- inputs that make third-party readers TALK (xlrd / olefile / pypdf notes and warnings): stray bytes after the end of
+    #      a legacy file, the bare stream without its OLE container; through the CLI stdout must be the result or empty
+    talk = [("xls", "fix:legacy_ms/mwe.xls", "Workbook"), ("doc", M.SEEDS["doc"][0], "WordDocument"),
+            ("ppt", "fix:legacy_ms/slide_with_notes.ppt", "PowerPoint Document"), ("pdf", "gen:pdf", None), ("msg", None, None)]
+    if T:
+        talk += [("xls", "fix:legacy_ms/xls_with_images.xls", "Workbook"), ("xls", "fix:legacy_ms/pb_2011_1_gen_web.xls", "Workbook")]
+    for k, sid, stream in talk:
+        if sid is None:
+            continue
+        n0 = len(M.seed_bytes(sid))
+        variants = [[["append", n_, 7]] for n_ in (1, 7, 100, 511, 4096)] + [[["trunc", n0 - 1]], [["trunc", n0 - 200]]]
+        if stream:
+            variants += [[["olestream", stream]], [["olestream", stream], ["append", 3, 1]], [["olestream", stream], ["trunc", 600]]]
+        for vi, mu in enumerate(variants):
+            add("cli", k, {"seed": sid, "muts": mu}, cli_mode=("text", "json", "unit")[vi % 3])
+            if T or vi % 4 == 0:
+                add("direct", k, {"seed": sid, "muts": mu})
     # ---- formula-bearing documents: one OMML construct nested deep (the converter is recursive), DOCX and PPTX
     ok_ = [k_ for k_ in M.OMML_NEST]
     for k in ("docx", "pptx"):
@@ -762,6 +837,10 @@ def _fuzz_jobs(ctx, kinds_all):
         j = {"op": "clisub", "entry": "cli", "kind": k, "src": {"seed": sid, "muts": [mut]}, "ext": _ext_for(k, sid),
              "approx_size": n, "cli_mode": rng.choice(["text", "json", "unit", "jsonbin"])}
         subs.append(j)
+    for k, sid, mu in (("xls", "fix:legacy_ms/mwe.xls", [["append", 7, 7]]), ("xls", "fix:legacy_ms/mwe.xls", [["olestream", "Workbook"]]),
+                       ("doc", M.SEEDS["doc"][0], [["append", 100, 7]]), ("ppt", "fix:legacy_ms/slide_with_notes.ppt", [["append", 1, 7]])):
+        subs.append({"op": "clisub", "entry": "cli", "kind": k, "ext": k, "approx_size": 80000, "cli_mode": "text",
+                     "src": {"seed": sid, "muts": mu}})
     for which in ("mbox_second", "mbox_first", "mbox_clean", "zip_second", "zip_none"):
         subs.append({"op": "clisub", "entry": "cli", "kind": "mbox" if which.startswith("mbox") else "archive",
                      "ext": M.SURR_INPUTS[which], "approx_size": 500, "cli_mode": "text", "src": {"seed": txt, "muts": [["surr", which]]}})
@@ -830,6 +909,17 @@ def run(ctx):
     for j, r in zip(fz_jobs + sub_jobs, fres):
         if "machinery" in r:
             raise MachineryError(f"fuzz execution failed in the harness: {r['machinery']}\n{r.get('tb', '')}")
+        if j["op"] == "seq" and "steps" in r:
+            for si, sr in enumerate(r["steps"]):
+                st = j["steps"][si]
+                fz_traces.append({"id": f"fz{len(fz_traces)}", "hdr": {"x": 1}, "ev": _strip(sr["ev"])})
+                hist = [f"{x['kind']}:{x['src']}" for x in j["steps"][:si]]
+                fz_meta.append({"desc": {"entry": "direct", "kind": st["kind"], "src": st["src"], "ext": st.get("ext"),
+                                         "op": "seq", "step": si + 1, "after_calls_on_other_threads": hist,
+                                         "blocked": sr.get("blocked", False)},
+                                "res": {"esc_type": sr.get("esc_type"), "sha": None, "detail": [],
+                                        "blocked_after": hist if sr.get("blocked") else None}, "job": st})
+            continue
         fz_traces.append({"id": f"fz{len(fz_traces)}", "hdr": {"x": 1}, "ev": _strip(r["ev"])})
         fz_meta.append({"desc": {"entry": j["entry"], "kind": j["kind"], "src": j["src"], "ext": j.get("ext"),
                                  "members": j.get("members"), "arch": j.get("arch"), "cli_mode": j.get("cli_mode"),
@@ -961,6 +1051,9 @@ def _explain(bad, m, r):
     inp = (f"input {src}" if src else "the valid seed document, nothing injected" if str(d.get("class", "")).startswith("(none")
            else f"injection {d.get('class')} at {d.get('at')}")
     head = f"[{d.get('entry')}/{d.get('kind')}] {inp}: "
+    if a == "Timeout" and d.get("blocked"):
+        return head + ("the call never came back: its thread sleeps without CPU progress (blocked), after these calls on "
+                       f"other threads of the same process: {d.get('after_calls_on_other_threads')} (termination clause)")
     if a == "Timeout":
         return head + "the execution did not finish within its CPU / wall budget and was killed (termination clause)"
     if a == "LoopOverrun":
@@ -977,6 +1070,9 @@ def _explain(bad, m, r):
         return head + (f"an exception arises at stage '{bad.get('st')}' of layer frame {bad.get('d')}, which the "
                        "specification does not have for this layer (a statement outside the wrapper's try body: before it, "
                        "in its else / finally)")
+    if a == "CliOut" and bad.get("out") == "polluted":
+        return head + (f"something other than the CLI wrote to stdout: {r.get('foreign_stdout')} (exit={bad.get('exit')}); stdout "
+                       "must be exactly the result or empty")
     if a == "CliOut":
         return head + (f"CLI outcome stdout={bad.get('out')} diagnostic lines={bad.get('diag')} exit={bad.get('exit')} "
                        "differs from the specification (exit 0 + result | exit 1 + nothing on stdout + one diagnostic)")
